@@ -874,6 +874,23 @@ func (e *evalEnv) call(x *ast.CallExpr) tv {
 				e.fail(x, "mapview(): values must be byte slices")
 			}
 			return tv{term: fmt.Sprintf("(mkSMap (select %s %s) (mvview (select %s %s) (select %s %s) %s))", e.st.H["MD"], m.term, e.st.H["MD"], m.term, e.st.H["ML"], m.term, e.st.H["I"]), typ: types.NewMap(mt.Key(), tString), smap: true}
+		case "fireAt":
+			// fireAt(ch) / isTimer(ch): ghost attributes of a channel returned by time.After
+			v := e.value(e.eval(x.Args[0]))
+			return tv{term: sel(e.st.H["G"], ghostFireRef, v.term), typ: tInt}
+		case "isTimer":
+			v := e.value(e.eval(x.Args[0]))
+			return tv{term: fmt.Sprintf("(= %s 1)", sel(e.st.H["G"], ghostTimerRef, v.term)), typ: tBool}
+		case "now":
+			return tv{term: e.g.clockNow(e.st), typ: tInt}
+		case "sends":
+			return tv{term: e.g.sendsNow(e.st), typ: tInt}
+		case "sentAt":
+			return tv{term: sel(e.st.H["G"], ghostSendRef, "1"), typ: tInt}
+		case "lastSent":
+			return tv{term: sel(e.st.H["Q"], ghostSendRef, "0"), typ: tString}
+		case "lastSentTo":
+			return tv{term: sel(e.st.H["F"], ghostSendRef, "0"), typ: types.Universe.Lookup("any").Type()}
 		case "sameheap":
 			// sameheap(): every heap component and the allocation counter are what they were at entry (loops of functions
 			// that neither write nor - on the paths that continue - allocate)
@@ -971,6 +988,10 @@ func (e *evalEnv) call(x *ast.CallExpr) tv {
 			c := e.child()
 			for i, p := range mc.Params {
 				c.bound[p] = e.eval(x.Args[i])
+			}
+			// the body is evaluated in the package that defines the macro (its specification functions and types)
+			if mp := e.g.eng.pkgByPath(mc.PkgPath); mp != nil {
+				c.pkg = mp
 			}
 			return c.eval(mc.Body.Expr)
 		}
